@@ -205,6 +205,66 @@ def rule_subst_complete(rep: Report, repo: Repo) -> None:
               f'{EXPR}:{ev.lineno}', expected='unchanged flag cleared on any changed argument; else Expr((op, tuple(evaluated_args)))')
 
 
+def rule_rel_names(rep: Report, repo: Repo) -> None:
+    rep.rule('C03.REL-NAMES', 'namespace-relative names climb any number of levels: the DOT_ID token regex (a constant) accepts k leading '
+             'dots for every k (an unbounded repeat of `.` in its optional head), and the resolver drops k-1 namespace levels, rejecting '
+             'only k-1 > depth - a macro body written inside nested namespaces means the same after inlining', 3)
+    import re as _re
+    import re._parser as _rp                                           # type: ignore[import-not-found]
+    dot = repo.const(PARSER, 'dot_id_re')
+    if not isinstance(dot, str):
+        raise AnalysisError('dot_id_re is not a foldable string constant')
+    # (a) structural: somewhere in the optional head there is an unbounded repeat whose body is the literal '.'
+    def unbounded_dot(items: Any) -> bool:
+        for op, av in items:
+            name = str(op)
+            if name in ('MAX_REPEAT', 'MIN_REPEAT'):
+                lo, hi, sub = av
+                if len(sub) == 1 and str(sub[0][0]) == 'LITERAL' and sub[0][1] == ord('.') and hi == _rp.MAXREPEAT and lo == 0:
+                    return True
+                if unbounded_dot(sub):
+                    return True
+            elif name == 'SUBPATTERN':
+                if unbounded_dot(av[3]):
+                    return True
+            elif name == 'BRANCH':
+                if any(unbounded_dot(b) for b in av[1]):
+                    return True
+        return False
+    tree = _rp.parse(dot)
+    rep.check(unbounded_dot(tree), 'C03.REL-NAMES', 'dot_id_re:unbounded-leading-dots', dot, f'{PARSER} dot_id_re',
+              expected='an optional head containing `\\.*` (any number of leading dots)')
+    # (b) the regular language of the constant: membership of the name shapes the parser resolves
+    cre = _re.compile(dot)
+    want_in = ['.' * k + 'a' + '.b' * j for k in range(1, 7) for j in range(0, 3)] + ['x.a', 'x.a.b', '_x1.y2']
+    want_out = ['a', '.', '..', 'a.', '.1a', '']
+    bad = [w for w in want_in if not cre.fullmatch(w)] + [f'!{w}' for w in want_out if cre.fullmatch(w)]
+    rep.check(not bad, 'C03.REL-NAMES', 'dot_id_re:language', f'{len(want_in)} member / {len(want_out)} non-member shapes; wrong: {bad[:6]}',
+              f'{PARSER} dot_id_re', expected='k leading dots (k = 1..6) + dotted identifiers are DOT_ID tokens; a bare identifier is not')
+    # (c) the resolver: the rejection bound and the number of dropped levels are the same quantity
+    f = repo.func(PARSER, 'FJParser.base_name_to_ns_full_name')
+    from ..linexpr import Env, lin_show, py_ir, to_lin
+    lin = lambda e: lin_show(to_lin(py_ir(e), Env({})))
+    nd = [norm(st.value) for st in f.body if isinstance(st, ast.Assign) and norm(st.targets[0]) == 'num_of_dots']
+    # rejection: `A > B` (or `B < A`) with A - B == num_of_dots - 1 - depth
+    guards = []
+    for n in ast.walk(f):
+        if isinstance(n, ast.If) and isinstance(n.test, ast.Compare) and len(n.test.ops) == 1 and isinstance(n.test.ops[0], (ast.Gt, ast.Lt)):
+            a, b = n.test.left, n.test.comparators[0]
+            if isinstance(n.test.ops[0], ast.Lt):
+                a, b = b, a
+            guards.append(lin(ast.BinOp(left=a, op=ast.Sub(), right=b)))
+    # dropped levels: the upper bound of the namespace slice in the returned name
+    uppers = [lin(x.slice.upper) for r in ast.walk(f) if isinstance(r, ast.Return) and r.value is not None for x in ast.walk(r.value)
+              if isinstance(x, ast.Subscript) and norm(x.value) == 'curr_namespace' and isinstance(x.slice, ast.Slice) and x.slice.upper is not None
+              and x.slice.lower is None]
+    rets = uppers
+    ok = (nd == ['len(base_name) - len(without_dots)'] and '-len(curr_namespace) + num_of_dots - 1' in guards
+          and uppers == ['len(curr_namespace) - num_of_dots + 1'])
+    rep.check(ok, 'C03.REL-NAMES', 'resolver', f'guards {guards}; returns {rets}', f'{PARSER}:{f.lineno}',
+              expected='k dots drop k-1 levels; an error only when k-1 exceeds the depth')
+
+
 def synthetic_families(repo: Repo) -> List[Tuple[str, str, str, ast.AST]]:
     """(family, rel, fixed text, node) for every synthetic name that enters a dictionary shared with user identifiers."""
     out: List[Tuple[str, str, str, ast.AST]] = []
@@ -282,6 +342,7 @@ def check(rep: Report, repo: Optional[Repo] = None) -> None:
     rule_rename_first(rep, repo)
     rule_simult(rep, repo)
     rule_subst_complete(rep, repo)
+    rule_rel_names(rep, repo)
     rule_fresh(rep, repo)
     rule_prefix(rep, repo)
     rule_file_state(rep, repo)
